@@ -46,7 +46,8 @@ package account
 //@   nopanic
 //@   implements (ITrxHandler_TrxAcctHandler).ExecuteTrx
 //@   objinv ctrler != nil && ctrler.acctLedger != nil
-//@   requires wf_ctx(ctx) && amounts_fit(ctx)
+//@   assumes amounts_fit(ctx)
+//@   requires wf_ctx(ctx)
 //@   modifies u(ctx.Sender.Balance), u(ctx.Receiver.Balance), ctx.Sender.Name, ctx.Sender.DocURL, allmaps(memItems.gotItems)
 //@   ensures result != nil ==> u(ctx.Sender.Balance) == old(u(ctx.Sender.Balance)) && u(ctx.Receiver.Balance) == old(u(ctx.Receiver.Balance))   [C05]
 //@   ensures result == nil ==> u(ctx.Sender.Balance) >= old(u(ctx.Sender.Balance)) - u(ctx.Tx.Amount)                  [C16]
